@@ -8,6 +8,7 @@ run_prop() {
   for d in seeded/${p}_*; do
     ids=$p
     [ "$(basename $d)" = "C07_4" ] && ids="C19"     # the LRU cache change is a C19 matter (transformer cache), reported there
+    [ "$(basename $d)" = "C11_10" ] && ids="C19"    # bounded CRS cache: stale transformers by recycled ids - a C19 matter, reported there (C11 sees it only now and then)
     [ "$(basename $d)" = "C08_8" ] && { echo "C08_8 drift-only (outside the statement: shape mode promises no anchor alignment)"; continue; }
     n=$(VH_WT=/tmp/wt/sa_$p tools/mutcheck.sh $d/patch.diff $ids | grep -o "violations=[0-9]*" | tail -1)
     echo "$(basename $d) ${n:-violations=ERR}"
